@@ -645,7 +645,12 @@ impl DbInner {
 		#[cfg(parity_db_verif)]
 		let might_wait_because_the_queue_is_full = might_wait_because_the_queue_is_full ||
 			crate::verif::EXTERNAL_WORKERS.load(Ordering::Relaxed);
-		if might_wait_because_the_queue_is_full && queue.bytes > MAX_COMMIT_QUEUE_BYTES {
+		// Nobody drains the queue once a background worker has failed: do not wait then, the
+		// error is reported below.
+		if might_wait_because_the_queue_is_full &&
+			queue.bytes > MAX_COMMIT_QUEUE_BYTES &&
+			self.bg_err.lock().is_none()
+		{
 			log::debug!(target: "parity-db", "Waiting, queue size={}", queue.bytes);
 			self.commit_queue_full_cv.wait(&mut queue);
 		}
@@ -1393,11 +1398,16 @@ impl DbInner {
 	fn store_err(&self, result: Result<()>) {
 		if let Err(e) = result {
 			log::warn!(target: "parity-db", "Background worker error: {}", e);
-			let mut err = self.bg_err.lock();
-			if err.is_none() {
-				*err = Some(Arc::new(e));
-				self.shutdown();
+			{
+				let mut err = self.bg_err.lock();
+				if err.is_none() {
+					*err = Some(Arc::new(e));
+					self.shutdown();
+				}
 			}
+			// A committer that has seen no error yet holds the queue lock until it waits: taking
+			// the lock here makes sure the wake-up below is not lost in between.
+			drop(self.commit_queue.lock());
 			self.commit_queue_full_cv.notify_all();
 		}
 	}
